@@ -207,8 +207,28 @@ impl<'s, R: de::read::take::Take> DecompressionState<'s, R> {
 				decompression_buffer,
 			} => {
 				let (reader, config) = deserializer_state.into_inner();
+				let mut reader = reader.into_inner();
+				// Drive the decompressor to the end of the block by asking for more data. If
+				// the serialized avro is correct, this should not yield anything, but:
+				// - If there is decompressed data left, the block is not the `n_objects` avro
+				//   objects it advertises to be.
+				// - If we didn't do this, the last bytes of the compressed data (end of stream
+				//   marker, checksum...) may not have been read yet (typically when the
+				//   decompressed data exactly fills our buffer, or when the objects are
+				//   zero-sized), resulting in an error when checking that there's no data left
+				//   in the block.
+				let mut drive_reader_to_end_buf = [0];
+				let read = std::io::Read::read(&mut reader, &mut drive_reader_to_end_buf).map_err(
+					|e| de::DeError::custom_io("Error when driving decompressor to end of block", e),
+				)?;
+				if read != 0 {
+					return Err(de::DeError::new(
+						"There's decompressed data left in the block \
+							after reading the whole avro block out of it",
+					));
+				}
 				(
-					(match reader.into_inner().into_inner() {
+					(match reader.into_inner() {
 						#[cfg(feature = "deflate")]
 						DecompressionReaderForBufReader::Deflate(reader) => reader.into_inner(),
 						#[cfg(feature = "bzip2")]
@@ -253,7 +273,14 @@ impl<'s, R: de::read::take::Take> DecompressionState<'s, R> {
 				source_reader,
 			} => {
 				let (reader, config) = deserializer_state.into_inner();
-				(source_reader, config, reader.into_inner().into_inner())
+				let decompressed = reader.into_inner();
+				if decompressed.position() < decompressed.get_ref().len() as u64 {
+					return Err(de::DeError::new(
+						"There's decompressed data left in the block \
+							after reading the whole avro block out of it",
+					));
+				}
+				(source_reader, config, decompressed.into_inner())
 			}
 		})
 	}
